@@ -157,14 +157,20 @@ class H2Protocol:
         # This should be run in a seperate task to the rest of this
         # class. This allows it seperately choose when to send,
         # crucially in what order.
-        while not self.closed:
-            try:
-                stream_id = next(self.priority)
-            except priority.DeadlockError:
-                await self.has_data.wait()
-                await self.has_data.clear()
-            else:
-                await self._send_data(stream_id)
+        try:
+            while not self.closed:
+                try:
+                    stream_id = next(self.priority)
+                except priority.DeadlockError:
+                    await self.has_data.wait()
+                    await self.has_data.clear()
+                else:
+                    await self._send_data(stream_id)
+        finally:
+            # Nothing will be sent from here on (e.g. cancelled at the end
+            # of the graceful shutdown period), release any waiting sends.
+            for buffer in list(self.stream_buffers.values()):
+                await buffer.close()
 
     async def _send_data(self, stream_id: int) -> None:
         try:
